@@ -495,12 +495,12 @@ Proof.
     destruct (VFS_MAX_INO <? ma_max a); [inversion Hm; subst; auto|].
     destruct (v_init s && negb (ma_init_err a =? 0)); [inversion Hm; subst; auto|].
     destruct (allocate_fs_idx s) as [[i| |] nx]; try (inversion Hm; subst; cbn; auto).
-    set (s2 := match map with Some m => with_maps (with_next s nx) (aset i m (v_maps (with_next s nx))) | None => with_next s nx end) in *.
-    assert (Hps : v_ps s2 = v_ps s) by (unfold s2; destruct map; reflexivity).
-    assert (Hrm2 : v_rm s2 = v_rm s) by (unfold s2; destruct map; reflexivity).
+    set (s2 := with_maps (with_next s nx) (match map with Some m => aset i m (v_maps (with_next s nx)) | None => adel i (v_maps (with_next s nx)) end)) in *.
+    assert (Hps : v_ps s2 = v_ps s) by reflexivity.
+    assert (Hrm2 : v_rm s2 = v_rm s) by reflexivity.
     destruct (insert_mount s2 bid (root_entry_of a) i p) as [s3 r3] eqn:Ei.
     destruct (insert_mount_tree s2 bid (root_entry_of a) i p s3 r3) as (T3 & KL3 & Hrm3); try (rewrite Hps; assumption); [exact Ei|].
-    destruct r3; inversion Hm; subst; (split; [exact T3|split; [exact KL3|congruence]]).
+    destruct r3; inversion Hm; subst; cbn [with_maps v_ps v_rm]; (split; [exact T3|split; [exact KL3|congruence]]).
   - destruct IH as (T & KL & Hrm). unfold vfs_umount in Hu. rewrite Hrm in Hu.
     destruct (ps_path_walk (v_ps s) p) as [[inode|]| |]; try (inversion Hu; subst; auto).
     destruct (ps_parent (v_ps s) inode); try (inversion Hu; subst; auto).
@@ -580,12 +580,12 @@ Proof.
     destruct (VFS_MAX_INO <? ma_max a); [inversion Hm; subst; auto|].
     destruct (v_init s && negb (ma_init_err a =? 0)); [inversion Hm; subst; auto|].
     destruct (allocate_fs_idx s) as [[i| |] nx]; try (inversion Hm; subst; cbn; auto).
-    set (s2 := match map with Some m => with_maps (with_next s nx) (aset i m (v_maps (with_next s nx))) | None => with_next s nx end) in *.
-    assert (Hps : v_ps s2 = v_ps s) by (unfold s2; destruct map; reflexivity).
+    set (s2 := with_maps (with_next s nx) (match map with Some m => aset i m (v_maps (with_next s nx)) | None => adel i (v_maps (with_next s nx)) end)) in *.
+    assert (Hps : v_ps s2 = v_ps s) by reflexivity.
     destruct (insert_mount s2 bid (root_entry_of a) i p) as [s3 r3] eqn:Ei.
     destruct (insert_mount_tree s2 bid (root_entry_of a) i p s3 r3) as (T3 & _ & _); try (rewrite Hps; assumption); [exact Ei|].
     assert (OK3 : ps_ok (v_ps s3)) by (eapply insert_mount_ps; [rewrite Hps; exact OK|rewrite Hps; exact Hb|exact Ei]).
-    destruct r3; inversion Hm; subst; auto.
+    destruct r3; inversion Hm; subst; cbn [with_maps v_ps]; auto.
   - destruct IH as (T & OK). unfold vfs_umount in Hu. unfold evicts_leaf in Hl.
     destruct (ps_path_walk (v_ps s) p) as [[inode|]| |] eqn:Ew; try (inversion Hu; subst; auto).
     destruct (ps_parent (v_ps s) inode) eqn:Epar; try (inversion Hu; subst; auto).
